@@ -326,16 +326,11 @@ impl CompressedStreamWriter {
         let new_item_serialized_len = item.serialized_len();
         assert!(new_item_serialized_len > 0);
         const BLOCK_META_LEN: usize = 3;
-        let new_block_needed =
-            self.uncompressed_block.len() + new_item_serialized_len > self.block_threshold;
-        if new_block_needed {
-            BLOCK_META_LEN + self.output.len() + self.uncompressed_block.len() + // current block
-                BLOCK_META_LEN + new_item_serialized_len // new block
-                + 1 // No more blocks tag.
-        } else {
-            BLOCK_META_LEN + self.output.len() + self.uncompressed_block.len() + new_item_serialized_len // current block
-                + 1 // No more blocks tag.
-        }
+        let uncompressed_len = self.uncompressed_block.len() + new_item_serialized_len;
+        // The pending bytes will be split into blocks of at most `block_threshold` bytes.
+        let num_blocks = uncompressed_len.div_ceil(self.block_threshold);
+        self.output.len() + BLOCK_META_LEN * num_blocks + uncompressed_len
+            + 1 // No more blocks tag.
     }
 
     /// Appends a new item to the stream. Items must be at most `u16::MAX` bytes long.
